@@ -69,6 +69,8 @@ def law_unary(ch):
     if op in ("squeeze",):
         spec = ch.draw(squeeze_specs(), "x")
     else:
+        if "dtype" not in kw:
+            kw["dtype"] = "any"
         spec = ch.draw(gen.array_specs(ferm=False, syms=ALLSYMS, **kw), "x")
     symm = spec["symm"]
     x = gen.build(spec)
@@ -589,7 +591,8 @@ def law_chain(ch):
     import symmray as sr
 
     spec = ch.draw(gen.array_specs(ferm=False, syms=ALLSYMS, min_ndim=1,
-                                   max_ndim=3, allow_empty=False), "x")
+                                   max_ndim=3, allow_empty=False,
+                                   dtype="any"), "x")
     symm = spec["symm"]
     x = gen.build(spec)
     dx = D.dense_of(x)
@@ -603,7 +606,9 @@ def law_chain(ch):
             ops += ["transpose", "diag", "expand", "tensordot", "sub-zero"]
         if nd < 4:
             ops += ["expand"]
-        if any(d == 1 for d in dx.shape):
+        if any(d == 1 for d in dx.shape) and tuple(x.shape) == dx.shape:
+            # (only while the result's own tables are complete: a table that
+            # lost charges changes which axes have size one)
             ops += ["squeeze"]
         op = ch.choice(ops, f"op{step}")
         sig = f"chain:{op}"
@@ -687,12 +692,7 @@ def law_chain(ch):
             dy = D.dense_of(y, ref=yref)
             mode = ch.choice(["auto", "fused", "blockwise"], f"mode{step}")
             if mixed_dtype(x) or mixed_dtype(y):
-                # open finding C20/fuse-insert:mixed-dtype (fusing blocks of
-                # mixed real/complex dtype drops imaginary parts): excluded
-                # here by construction so that the search continues behind it
-                if mode != "blockwise":
-                    ch.count("excluded:mixed-dtype-fused-contraction")
-                mode = "blockwise"
+                ch.count("mixed-dtype-contraction")
             x = must(sr.tensordot, x, y, (axes_a, axes_b), mode=mode,
                      preserve_array=True, what=sig)
             dx = np.tensordot(dx, dy, axes=(axes_a, axes_b))
